@@ -15,13 +15,10 @@ class SymArray(_np.ndarray):
     """object array holding proxies; propagates through numpy operations as a subclass"""
 
     def astype(self, dtype, *a, **k):
-        if dtype in (float, _np.float64, "float", "float64", _np.double) and _holds_sym(self):
+        dtype = _dt(dtype)
+        if _holds_sym(self) and dtype in (float, _np.float64, "float", "float64", _np.double, int, _np.int64):
             return self
-        if dtype in (int, _np.int64) and _holds_sym(self):
-            return self
-        return _np.asarray(self).astype(dtype, *a, **k).view(SymArray) if dtype is object else _np.asarray(
-            self
-        ).astype(dtype, *a, **k)
+        return _np.asarray(self).astype(dtype, *a, **k)
 
     def tolist(self):
         return _np.asarray(self).tolist()
@@ -103,6 +100,8 @@ def around(a, decimals=0, out=None):
         for idx in _np.ndindex(arr.shape):
             res[idx] = _round_scalar(arr[idx], decimals)
         return res.view(SymArray)
+    if isinstance(a, _np.ndarray) and a.dtype == object:
+        a = _np.asarray(a).astype(_np.float64)
     return _np.around(a, decimals, out)
 
 
